@@ -407,6 +407,20 @@ func runC12(cfg Config) {
 		case <-time.After(5 * time.Second):
 		}
 		r2 := make(chan string, 1)
+		// whether the late reader found the write in flight is read off the yield sites of WriteDedupQueue.GetChunk
+		// ("wdq.get.join": it waits for the write; "wdq.get.pass": there was none, it goes on to the read queue) —
+		// not guessed with a sleep: under load the reader may reach the queue only after the write has completed, and
+		// such a read may legitimately join the early read and answer "missing" (false alarm of this monitor in the
+		// thorough tier on a busy machine, session 7)
+		lateSite := make(chan string, 4)
+		desync.VerifYieldID = func(site string, yid desync.ChunkID) {
+			if yid == id && (site == "wdq.get.join" || site == "wdq.get.pass") {
+				select {
+				case lateSite <- site:
+				default:
+				}
+			}
+		}
 		go func() {
 			c, err := q.GetChunk(id)
 			if err != nil {
@@ -424,10 +438,16 @@ func runC12(cfg Config) {
 			}
 			r2 <- "chunk"
 		}()
-		time.Sleep(time.Duration(500+rng.Intn(2500)) * time.Microsecond) // let the late reader find the write in flight
+		foundWrite := false
+		select {
+		case site := <-lateSite:
+			foundWrite = site == "wdq.get.join"
+		case <-time.After(5 * time.Second):
+		}
+		desync.VerifYieldID = nil
 		close(st.storeGate)
 		caseLine := fmt.Sprintf("writededup-directed it=%d early-reader=%v", it, earlyReader)
-		rep.Count(caseLine, true, "writededup-directed")
+		rep.Count(caseLine, foundWrite, "writededup-directed", fmt.Sprintf("writededup-directed:found-write=%v", foundWrite))
 		var late string
 		select {
 		case late = <-r2:
@@ -445,7 +465,7 @@ func runC12(cfg Config) {
 			}
 		}
 		<-wres
-		if late != "chunk" {
+		if foundWrite && late != "chunk" {
 			monitor("WriteDedupQueue: a read that arrived while a write of the same chunk was in flight did not see that chunk: "+late, caseLine)
 		}
 	}
